@@ -1,0 +1,34 @@
+//go:build verif
+
+package synctree
+
+import (
+	"github.com/anyproto/any-sync/commonspace/object/tree/objecttree"
+	"github.com/anyproto/any-sync/commonspace/object/tree/synctree/response"
+)
+
+// VerifSetResponseBatchSize makes HandleStreamRequest cut full-sync responses into batches of at
+// most n bytes instead of batchSize (n <= 0 restores the default), so that the verification harness
+// can exercise multi-batch responses with small changes. Only built with the `verif` tag.
+func VerifSetResponseBatchSize(n int) {
+	if n <= 0 {
+		createResponseProducer = response.NewResponseProducer
+		return
+	}
+	createResponseProducer = func(spaceId string, tree objecttree.ObjectTree, theirHeads, theirSnapshotPath []string) (response.ResponseProducer, error) {
+		p, err := response.NewResponseProducer(spaceId, tree, theirHeads, theirSnapshotPath)
+		if err != nil {
+			return nil, err
+		}
+		return verifBatchProducer{ResponseProducer: p, size: n}, nil
+	}
+}
+
+type verifBatchProducer struct {
+	response.ResponseProducer
+	size int
+}
+
+func (v verifBatchProducer) NewResponse(int) (*response.Response, error) {
+	return v.ResponseProducer.NewResponse(v.size)
+}
